@@ -5,7 +5,7 @@ variance (window family, per-blob sigma incl. the uncharged-blob case, squared d
 empty family when the blob is longer than the sequence); the average of blob sizes 5 and 6.
 Does not decide the floating-point error of evaluating that formula."""
 from lcsa.alg import Rat
-from lcsa.ref import Pair, subst_rows
+from lcsa.ref import Pair, subst_rows, empty_sum_norm
 from props.common import SEQ, SEQ_PATH, check_charge_map, compare_tables, check_api
 
 TRI = {"nneut": Rat.atom("N") - Rat.atom("npos") - Rat.atom("nneg")}
@@ -32,7 +32,7 @@ def run(ck, prog):
     f, code = pair.code_rows(SEQ, "Sequence.deltaForm", {"bloblen": w})
     ref = pair.ref_rows("Sequence.deltaForm", {"w": w})
     compare_tables(ck, "FOLD-window", SEQ_PATH + ":Sequence.deltaForm", subst_rows(code, TRI), subst_rows(ref, TRI),
-                   "deltaForm(w)", where=f.loc(), domain=_dom(),
+                   "deltaForm(w)", where=f.loc(), domain=_dom(), norm=empty_sum_norm(pair.code.wsums),
                    note="sum over i in [0, N-w] of (sigma - sigma_blob(i))^2 / (N-w+1); blob = chargePattern[i:i+w]; "
                         "empty family (w > N) gives the initial 0")
     for rec in pair.code.wsums:
@@ -44,7 +44,7 @@ def run(ck, prog):
     f, code = pair.code_rows(SEQ, "Sequence.delta")
     ref = pair.ref_rows("Sequence.delta")
     compare_tables(ck, "ALG", SEQ_PATH + ":Sequence.delta", subst_rows(code, TRI), subst_rows(ref, TRI), "delta",
-                   where=f.loc(), domain=_dom(), note="(deltaForm(5) + deltaForm(6)) / 2")
+                   where=f.loc(), domain=_dom(), norm=empty_sum_norm(pair.code.wsums), note="(deltaForm(5) + deltaForm(6)) / 2")
     check_api(ck, prog, [("get_delta", "delta", None)])
     ck.floor("window sums", len(pair.code.wsums), 2)
 
